@@ -7,8 +7,8 @@ EXTENDS NullGuard, IOUtils
 VARIABLE l
 Tr == ndJsonDeserialize(IOEnv.TRACE)
 
-IsSoft(e)  == /\ e.ended = "returned" /\ e.rv = Rows[e.row].fail
-              /\ e.changed = FALSE /\ e.heapdelta = 0
+IsSoft(e)  == /\ e.ended = "returned" /\ e.changed = FALSE
+              /\ (Rows[e.row].fail = "ANY" \/ (e.rv = Rows[e.row].fail /\ e.heapdelta = 0))
               /\ e.diag \in {"none", "warning", "debug"}
 IsFatal(e) == /\ e.ended = "exit" /\ e.diag = "fatal" /\ e.status # 0
 Accept(e)  == \/ "soft" \in Allowed(e.row, e.level) /\ IsSoft(e)
